@@ -175,6 +175,7 @@ class Stats:
     unmergeable: set = field(default_factory=set)
     recheck: dict = field(default_factory=lambda: {"rerun": 0, "mismatch": 0})
     wall_s: float = 0.0
+    violating_executions: int = 0
 
     def merge_from(self, o: "Stats"):
         self.states += o.states
@@ -188,6 +189,7 @@ class Stats:
             self.outcomes[k] = self.outcomes.get(k, 0) + v
         self.nontrivial_outcomes |= o.nontrivial_outcomes
         self.violations += o.violations
+        self.violating_executions += o.violating_executions
         self.unmergeable |= o.unmergeable
         self.recheck["rerun"] += o.recheck["rerun"]
         self.recheck["mismatch"] += o.recheck["mismatch"]
@@ -203,6 +205,7 @@ def explore(spec, *, bound=None, merge=True, max_execs=None, max_seconds=None, p
     t0 = time.time()
     st = Stats(bound=bound)
     seen: dict = {}
+    sig_counts: dict = {}
     frontier = [([], None)]
     rng = random.Random(seed)
     rerun_candidates = []
@@ -240,9 +243,20 @@ def explore(spec, *, bound=None, merge=True, max_execs=None, max_seconds=None, p
                 st.nontrivial_outcomes.add(oc)
             for u in r["notes"].get("unmergeable", ()):
                 st.unmergeable.add(u)
-            if r["violations"] and len(st.violations) < max_violations:
-                st.violations.append({"spec": list(spec), "choices": choices, "labels": [p[0] for p in pts],
-                                      "violations": r["violations"], "trace": r.get("trace", [])})
+            if r["violations"]:
+                # keep a few executions per DISTINCT violation signature (a flood of one known finding must never
+                # crowd out a different violation found later in the same scenario); max_violations caps the total
+                fresh = []
+                for x in r["violations"]:
+                    k = x["oracle"] + "|" + json.dumps(x.get("signature", {}), sort_keys=True, default=repr)
+                    n = sig_counts.get(k, 0)
+                    if n < 2:
+                        sig_counts[k] = n + 1
+                        fresh.append(x)
+                if fresh and len(st.violations) < max(max_violations, 400):
+                    st.violations.append({"spec": list(spec), "choices": choices, "labels": [p[0] for p in pts],
+                                          "violations": fresh, "trace": r.get("trace", [])})
+                st.violating_executions += 1
             if len(st.samples) < sample_n or (r["nontrivial"] and len(st.samples) < 2 * sample_n and rng.random() < 0.05):
                 st.samples.append({"choices": [f"{p[0]}={p[2]}/{p[1]}" for p in pts][:60], "outcome": oc[:300]})
             if recheck and rng.random() < 0.02:
